@@ -150,13 +150,24 @@ class World:
         if tick:
             self.tick()
         e = self.env(env)
+        pre = []
+        run_cwd = cwd or self.repo
+        if not plain and cwd is None:
+            inv = getattr(self, "invoke", "cwd")
+            if inv == "dash-C":
+                pre = ["-C", self.repo]
+                run_cwd = self.root
+            elif inv == "subdir" and not any(a == "--" for a in args) and args and args[0] in ("commit", "status", "rebase", "cherry-pick", "merge", "log", "stash", "reset", "checkout", "switch", "branch"):
+                sd = os.path.join(self.repo, getattr(self, "subdir", "."))
+                if os.path.isdir(sd):
+                    run_cwd = sd
         if plain or self.mode in ("plain", "hooks"):
-            argv = [REAL_GIT] + list(args)
+            argv = [REAL_GIT] + pre + list(args)
         else:
             e["GIT_AI"] = "git"
-            argv = [BIN] + list(args)
+            argv = [BIN] + pre + list(args)
         self._record("git", list(args), cwd, env, input, plain=bool(plain), tick=bool(tick))
-        p = run(argv, cwd or self.repo, e, input=input, timeout=timeout)
+        p = run(argv, run_cwd, e, input=input, timeout=timeout)
         if b"panicked at" in p.err:
             raise Panic("panic in %r: %s" % (args, p.stderr[-600:]))
         return p
